@@ -199,12 +199,18 @@ def emit_k(inst):
         corner = [0, mx, mx // 2, 1, mx - 1]
         bg = [rnd.choice(corner) if rnd.random() < 0.3 else rnd.randint(0, mx) for _ in range(nsrc)]
         out = ["let mut %s: [%s; %d] = [%s];" % (var, ct, nsrc, ", ".join(str(v) for v in bg))]
+        if inst.get("hot_fixed"):
+            # positions chosen by the generator (VERIF_SEED): only those multipliers stay symbolic
+            for k, pos in enumerate(sorted(rnd.sample(range(nsrc), min(hot, nsrc)))):
+                out.append("%s[%d] = kani::any();" % (var, pos))
+            return out
         for k in range(hot):
             out.append("let i%d: usize = kani::any(); kani::assume(i%d < %d); %s[i%d] = kani::any();" % (k, k, nsrc, var, k))
         return out
 
     if hot:
-        inst["symbolic"] = "%d source components at symbolic positions with symbolic values over a concrete pseudo-random background (all others fixed), and the initial destination" % hot
+        inst["symbolic"] = "%d source components at %s positions with symbolic values over a concrete pseudo-random background (all others fixed), and the initial destination" % (
+            hot, "generator-chosen (seeded)" if inst.get("hot_fixed") else "symbolic")
     if mode == "spec":
         body += src_decl()
         body.append("let mut dst: [%s; %d] = kani::any();" % (ct, ndst))
@@ -428,7 +434,8 @@ def gen_c18(tier, seed):
             # 16-bit min/max bounds with dense real coefficients: > 20 min per instance
             i["tier"] = "thorough"
             i["t"] = 3600
-            i["hot"] = i.get("hot") or (3 if i["mode"] == "bounded" else 0)
+            i["hot"] = i.get("hot") or (4 if i["mode"] == "bounded" else 0)
+            i["hot_fixed"] = True
     if tier != "thorough":
         insts = [i for i in insts if i["tier"] == "quick"]
         insts2 = [i for i in insts2 if i["tier"] == "quick"]
@@ -476,7 +483,8 @@ def gen_c01(tier, seed):
         if not (inst["pixel"] == "U8" and inst["_gid"] == "bil_8_3"):
             # full-symbolic contents cost ~7 min per U8 instance (two dense multiplier sets);
             # elsewhere 3 components at symbolic positions over a fixed background
-            inst["hot"] = 3
+            inst["hot"] = 4
+            inst["hot_fixed"] = True
         inst["t"] = 2400
         # the reference window may be wider than the real one: make the source wide enough
         need = max(s + len(wt) for s, wt in zip(starts, weights))
@@ -774,27 +782,33 @@ def gen_c06(tier, seed):
                         else:
                             sl = [(0, 255)]
                         for lo, hi in sl:
-                            q = quick and (op == "DivInplace" or pos == 0) and ((lo, hi) == (0, 255) or ((lo, hi) in narrow_q[:2] and P == "U16x2"))
+                            q = quick and (op == "DivInplace" or pos == 0) and ((lo, hi) == (0, 255))
                             lines.append(("c06_%s_none_%s_i%d_a%d" % (P.lower(), op.lower(), pos, lo), "quick" if q else "thorough", P, K, N, cpu, op, pos, lo, hi))
                     elif wide and is_div:
                         for lo, hi in ((0, 255), (256, 65535)):
                             lines.append(("c06_%s_%s_%s_i%d_a%d" % (P.lower(), cpu.lower(), op.lower(), pos, lo), "quick" if quick and lo == 0 else "thorough", P, K, N, cpu, op, pos, lo, hi))
+                        # nearly opaque pixel inside a nearly opaque row (all-opaque shortcuts)
+                        lines.append(("c06_%s_%s_%s_i%d_opq" % (P.lower(), cpu.lower(), op.lower(), pos), "quick" if quick and pos == 0 else "thorough", P, K, N, cpu, op, pos, 65280, 65535, True))
                     else:
                         lines.append(("c06_%s_%s_%s_i%d" % (P.lower(), cpu.lower(), op.lower(), pos), "quick" if quick else "thorough", P, K, N, cpu, op, pos, 0, mx))
+                        if cpu != "None" and is_div:
+                            lines.append(("c06_%s_%s_%s_i%d_opq" % (P.lower(), cpu.lower(), op.lower(), pos), "quick" if quick and pos == 0 else "thorough", P, K, N, cpu, op, pos, mx - 15, mx, True))
     src = ["//! generated by gen/pregen.py -- do not edit, not committed", "#![allow(unused_imports)]",
            "use crate::c06::*;", "use fast_image_resize::pixels::*;", "use fast_image_resize::CpuExtensions;", ""]
     n_inst = 0
-    for (name, tr, P, K, N, cpu, op, pos, lo, hi) in lines:
+    for line in lines:
+        (name, tr, P, K, N, cpu, op, pos, lo, hi) = line[:10]
+        opaque = len(line) > 10 and line[10]
         if tier != "thorough" and tr != "quick":
             continue
         n_inst += 1
         enc = "MulDiv::%s_typed::<%s> -> AlphaMulDiv impl, alpha::%s::{%s} kernels, alpha::common::{mul_div_*, div_and_clip*, RECIP_ALPHA*}" % (
             {"MulInplace": "multiply_alpha_inplace", "Mul": "multiply_alpha", "DivInplace": "divide_alpha_inplace", "Div": "divide_alpha"}[op],
             P, P.lower(), "native" if cpu == "None" else cpu.lower())
-        bnd = "symbolic: all %d components of pixel %d of a 1x%d row (alpha in %d..=%d), other pixels fixed; enumerated: %s %s %s position %d; unwind %d" % (
-            N, pos, K, lo, hi, P, cpu, op, pos, K * N + 2)
+        bnd = "symbolic: all %d components of pixel %d of a 1x%d row (alpha in %d..=%d), other pixels fixed%s; enumerated: %s %s %s position %d; unwind %d" % (
+            N, pos, K, lo, hi, " with alpha max..max-2 (nearly opaque row)" if opaque else "", P, cpu, op, pos, K * N + 2)
         src.append("// @h %s | prop=C06 | tier=%s | t=1800 | mem=4 | flags=stub --no-assertion-reach-checks | enc=%s | bounds=%s | assume=x86 intrinsic models (x86_model.rs, differential-tested)" % (name, tr, enc, bnd))
-        src.append("c06!(%s, %s, %d, %d, %s, %s, %d, %d, %d, %d);" % (name, P, K, N, cpu, op, pos, lo, hi, K * N + 2))
+        src.append("c06!(%s, %s, %d, %d, %s, %s, %d, %d, %d, %s, %d);" % (name, P, K, N, cpu, op, pos, lo, hi, "true" if opaque else "false", K * N + 2))
     (KH / "src" / "gen_c06.rs").write_text("\n".join(src) + "\n")
     return {"instances": n_inst, "alpha_slices": sorted(set((l[8], l[9]) for l in lines if l[6].startswith("Div") and l[5] == "None" and l[2].startswith("U16")))[:40]}
 
